@@ -490,12 +490,17 @@ def eval_aliasing(ann, line, other_line):
 
     def parse(l):
         return MafRecord.from_line(l, scheme=sch, validation_stringency=VS.Silent)
+    def col(rec, n):
+        try:
+            return rec[n]
+        except KeyError:          # the parse kept no column under that name
+            return None
     first, other0 = parse(line), parse(other_line)
-    want = [None if c is None else enc_val(c.value) for c in (first[n] for n in names)]
-    want_other = [None if c is None else enc_val(c.value) for c in (other0[n] for n in names)]
+    want = [None if c is None else enc_val(c.value) for c in (col(first, n) for n in names)]
+    want_other = [None if c is None else enc_val(c.value) for c in (col(other0, n) for n in names)]
     touched = []
     for n in names:
-        c = first[n]
+        c = col(first, n)
         if c is not None and isinstance(c.value, list):
             c.value.append("flagged")
             touched.append(n)
@@ -503,7 +508,7 @@ def eval_aliasing(ann, line, other_line):
     for what, l, w in (("the same line", line, want), ("a later line", other_line, want_other)):
         again = parse(l)
         for k, n in enumerate(names):
-            c = again[n]
+            c = col(again, n)
             got = None if c is None else enc_val(c.value)
             if got != w[k]:
                 fails.append({"what": "after a parsed record's list values were changed in place, parsing %s binds column %s to %s instead of the value its text %r denotes (%s)" % (
@@ -513,7 +518,7 @@ def eval_aliasing(ann, line, other_line):
             break
     # undo (the objects may be shared when the property is broken; keep later cases independent of this one)
     for n in touched:
-        c = first[n]
+        c = col(first, n)
         if c is not None and isinstance(c.value, list) and "flagged" in c.value:
             c.value.remove("flagged")
     return touched, fails
